@@ -24,7 +24,15 @@ fn run_once(sched: &Arc<Sched>, sc: &Value, sc_ix: usize, run_ix: usize, out: &A
     let total: usize = counts.iter().sum();
     // the counter can be positioned anywhere through the public serde form of the generator
     let start: u64 = sc["start"].as_str().and_then(|x| x.parse().ok()).or_else(|| sc["start"].as_u64()).unwrap_or(0);
-    let mk = || -> UuidGenerator { serde_json::from_value(json!({"namespace": ns, "counter": start})).unwrap_or_else(|_| UuidGenerator::new(ns)) };
+    // a fresh generator comes from the public constructor (unless the scenario asks for the serde form)
+    let via_serde = start != 0 || sc["ctor"].as_str() == Some("serde");
+    let mk = || -> UuidGenerator {
+        if via_serde {
+            serde_json::from_value(json!({"namespace": ns, "counter": start})).unwrap_or_else(|_| UuidGenerator::new(ns))
+        } else {
+            UuidGenerator::new(ns)
+        }
+    };
     let gen = Arc::new(mk());
     let goid = gen.verif_counter().1;
     // oracle: the id of counter value n is v5(namespace, decimal rendering of n)
